@@ -11,15 +11,60 @@ from dask.utils import apply, is_dataframe_like, is_series_like
 from toolz import merge_sorted, unique
 
 from dask_expr._expr import (
+    AssignIndex,
     AsType,
     Blockwise,
+    Elemwise,
     Expr,
+    Index,
     Projection,
+    RenameAxis,
+    ResetIndex,
     ToFrame,
+    ToTimestamp,
     are_co_aligned,
     determine_column_projection,
 )
-from dask_expr._util import _convert_to_list
+from dask_expr._util import _convert_to_list, _tokenize_partial
+
+# element-wise operations that return another index than the one of their input
+_INDEX_CHANGING = (AssignIndex, Index, RenameAxis, ResetIndex, ToTimestamp)
+
+
+def _share_index(*exprs):
+    """Do all inputs have the very same index?
+
+    This is stricter than ``are_co_aligned``: the inputs have to derive from a
+    single ancestor through element-wise operations only, since a Filter or a
+    Reduction changes the rows while it keeps the partitioning.
+    """
+    from dask_expr._quantile import SeriesQuantile
+    from dask_expr.io import IO
+
+    seen, ancestors = set(), set()
+    stack = [e for e in exprs if e.ndim > 0]
+    while stack:
+        e = stack.pop()
+        if e._name in seen:
+            continue
+        seen.add(e._name)
+        if isinstance(e, IO):
+            # Account for column projection within IO expressions
+            ancestors.add(
+                _tokenize_partial(e, ["columns", "_series", "_dataset_info_cache"])
+            )
+        elif (
+            isinstance(e, Elemwise)
+            and e._is_length_preserving
+            and not isinstance(e, _INDEX_CHANGING)
+        ):
+            stack.extend(dep for dep in e.dependencies() if dep.ndim > 0)
+        elif isinstance(e, SeriesQuantile):
+            # indexed by the requested quantiles, whatever the input is
+            ancestors.add((SeriesQuantile, tuple(e.q.tolist())))
+        else:
+            ancestors.add(e._name)
+    return len(ancestors) <= 1
 
 
 class Concat(Expr):
@@ -286,8 +331,10 @@ class Concat(Expr):
             # Only frames that share their index with the others can be dropped
             # if none of their columns is selected. Otherwise they still
             # contribute their rows (and upcast the other columns), so keep one
-            # of their columns as a placeholder.
-            can_drop = self.axis == 1 and self._are_co_alinged_or_single_partition
+            # of their columns as a placeholder. Being co-aligned or having a
+            # single partition is not sufficient: a filtered or reduced frame
+            # has other rows than the frame it was derived from.
+            can_drop = self.axis == 1 and _share_index(*self._frames)
             if not can_drop:
                 columns_frame = [
                     cols if len(cols) > 0 else get_columns_or_name(frame)[:1]
